@@ -283,8 +283,7 @@ theorem handleElem_clean (cfg : Cfg) (n : Name) (as : List Attr) (rs1 : RS) (pro
     · simp [Step.inv] at hi; exact hi.symm
     · simp [Step.inv] at hi; exact hi.symm
     · split at hi <;> (simp [Step.inv] at hi; exact hi.symm)
-    · simp [Step.inv] at hi; exact hi.symm
-    · simp [Step.inv] at hi; exact hi.symm
+    all_goals (simp [Step.inv] at hi; exact hi.symm)
   subst key
   exact ⟨⟨n, _, rfl, by simpa [plainTok] using hn⟩, hv⟩
 
